@@ -148,6 +148,9 @@ class Lib:
         S.append((path(r"^core::slice::<impl \[T\]>::get_mut$|^core::slice::<impl \[T\]>::get$"), self.get))
         S.append((path(r"^<&'a (mut )?std::vec::Vec<T, A> as std::iter::IntoIterator>::into_iter$|^<&'a (mut )?\[T\] as std::iter::IntoIterator>::into_iter$|^core::slice::iter::<impl std::iter::IntoIterator for &'a (mut )?\[T\]>::into_iter$|^core::slice::<impl \[T\]>::iter(_mut)?$|^std::vec::Vec::<T, A>::iter(_mut)?$"), self.slice_iter))
         S.append((path(r"^<std::vec::Vec<T, A> as std::ops::Index(Mut)?<I>>::index(_mut)?$"), self.vec_index))
+        S.append((path(r"^<std::vec::Vec<T, A> as std::iter::IntoIterator>::into_iter$"), self.vec_into_iter))
+        S.append((path(r"^<std::vec::IntoIter<T, A> as std::iter::Iterator>::next$"), self.into_iter_next))
+        S.append((path(r"^<std::vec::IntoIter<T, A> as std::iter::ExactSizeIterator>::len$|^<std::slice::Iter<'a, T> as std::iter::ExactSizeIterator>::len$|^std::iter::ExactSizeIterator::len$"), self.iter_len))
         S.append((path(r"^<std::slice::Iter(Mut)?<'a, T> as std::iter::Iterator>::next$"), self.slice_iter_next))
         S.append((path(r"^<std::slice::Iter(Mut)?<'a, T> as std::iter::DoubleEndedIterator>::next_back$"), self.slice_iter_next_back))
         S.append((path(r"^core::slice::<impl \[T\]>::first$"), self.first))
@@ -336,6 +339,29 @@ class Lib:
             st.emit("vec_remove", oid, i)
             return m.items[i]
         return NotImplemented
+
+    def vec_into_iter(self, it, st, inst, args, call):
+        a = args[0]
+        if isinstance(a, Obj) and isinstance(st.heap.get(a.id), AVec):
+            m = st.heap[a.id]
+            return st.new_obj(AIter(a.id, 0, len(m.items), "owning"))
+        return NotImplemented
+
+    def into_iter_next(self, it, st, inst, args, call):
+        iid, a = self._aiter(it, st, args[0])
+        if a is None:
+            return NotImplemented
+        rty = ret_ty(it, call)
+        if a.pos >= a.end:
+            return mk_none(rty)
+        st.heap[iid] = AIter(a.vec, a.pos + 1, a.end, a.role)
+        return mk_some(rty, st.heap[a.vec].items[a.pos])
+
+    def iter_len(self, it, st, inst, args, call):
+        iid, a = self._aiter(it, st, args[0])
+        if a is None:
+            return NotImplemented
+        return Conc(a.end - a.pos)
 
     def vec_index(self, it, st, inst, args, call):
         try:
